@@ -25,7 +25,7 @@ def plan(tier, seed):
     specs = [{"klass": "corpus_ORdmm_Land", "i": 0, "file": "tests/odefiles/ORdmm_Land.ode", "soft_timeout": 900, "backend": "numpy", "fill": tier == "quick" and False}]
     n = 500 if tier == "quick" else 4000
     for k in range(n):
-        specs.append({"klass": "random", "i": k, "backend": ("numpy", "numpy", "jax", "c")[k % 4], "fill": k >= 16})
+        specs.append({"klass": "random", "i": k, "backend": ("numpy", "numpy", "jax", "c")[k % 4], "fill": k >= 16, "remove_unused": k % 5 == 2, "ref_derivs": k % 3 == 1})
     for s in specs:
         s["prop"] = ID
         s.setdefault("soft_timeout", 240)
@@ -55,7 +55,7 @@ def run_case(spec, ctx):
         text = open(os.path.join(env.REPO, spec["file"])).read()
     else:
         prof = Profile(mod=False, ccond=False, int_literals=False, hard_lits=False, funcs=["exp", "sin", "cos", "sqrt", "abs", "atan"])
-        text = models.gen_model(rng, prof, depth=2, n_comp=rng.choice([2, 2, 3, 4]), n_states=rng.choice([2, 3, 4, 5]), n_inter=rng.choice([3, 5, 8, 12]), n_params=rng.choice([2, 3, 4])).render(rng)
+        text = models.gen_model(rng, prof, depth=2, n_comp=rng.choice([2, 2, 3, 4]), n_states=rng.choice([2, 3, 4, 5]), n_inter=rng.choice([3, 5, 8, 12]), n_params=rng.choice([2, 3, 4]), ref_derivs=bool(spec.get("ref_derivs"))).render(rng)
     out["hash"] = models.structural_hash(text) + ":" + be
     try:
         ref = RefModel.from_text(text)
@@ -115,7 +115,7 @@ def run_case(spec, ctx):
             except Exception:
                 continue
             sch = ["explicit_euler"]
-            oc = B.generate(be, sub, schemes=sch, missing_values=want_missing if want_missing else None)
+            oc = B.generate(be, sub, schemes=sch, missing_values=want_missing if want_missing else None, remove_unused=bool(spec.get("remove_unused")))
             if not oc.ok:
                 out["violations"].append({"kind": "sub_model_generation_raises", "subkind": be, "detail": {"which": label, "component": cname, "backend": be, "exc": oc.describe()[:300], "site": C.trace_site(oc.exc, 3)}})
                 continue
